@@ -78,6 +78,7 @@ type StreamSpec struct {
 	FailSendAt int   `json:"fail_send_at"` // n>0: the n-th MsgSend returns an error
 	FailRecvAt int   `json:"fail_recv_at"` // n>0: the n-th MsgRecv returns an error (call 1 delivers a hello)
 	Incoming   bool  `json:"incoming"`     // registered with ReadStream instead of AddStream
+	CloseErr   int   `json:"close_err"`    // the stream's Close() returns an error: 0 never, 1 always, 2 only the first call
 }
 
 type PeerSpec struct {
@@ -136,6 +137,7 @@ func normSpec(s StreamSpec, nPeers int, dial bool) StreamSpec {
 	s.Queue = clamp(s.Queue, 1, 5)
 	s.FailSendAt = clamp(s.FailSendAt, 0, 6)
 	s.FailRecvAt = clamp(s.FailRecvAt, 0, 6)
+	s.CloseErr = clamp(s.CloseErr, 0, 2)
 	if dial {
 		// a dialled stream that dies at once would be re-dialled in a loop whose length is a race
 		s.FailRecvAt = 0
@@ -559,6 +561,9 @@ func (h *harness) markDying(s *mStream) {
 		return
 	}
 	s.dying = true
+	if s.f.spec.CloseErr > 0 {
+		h.class("end-with-close-error")
+	}
 	h.burstEnded[s] = true
 	for _, e := range s.pending {
 		e.must = false
@@ -697,7 +702,7 @@ func (h *harness) exec(o Op) {
 			s.f.cancel()
 			h.class("end-ctx-cancel")
 		} else {
-			s.f.Close()
+			s.f.extClose()
 			h.class("end-transport-close")
 		}
 		h.markDying(s)
@@ -1247,7 +1252,7 @@ func (h *harness) teardown() {
 		}
 	}
 	for _, f := range all {
-		f.Close()
+		f.extClose()
 	}
 	synctest.Wait()
 	if !h.failed() {
@@ -1444,6 +1449,7 @@ func genSpec(rt *rapid.T, nPeers int, label string) StreamSpec {
 		s.FailRecvAt = rapid.IntRange(1, 5).Draw(rt, label+"failRecvAt")
 	}
 	s.Incoming = rapid.IntRange(0, 3).Draw(rt, label+"incoming") == 0
+	s.CloseErr = rapid.SampledFrom([]int{0, 0, 0, 1, 1, 2}).Draw(rt, label+"closeErr")
 	return s
 }
 
